@@ -172,6 +172,38 @@ func c17Seeds(format string, thorough bool) []c17Seed {
 			}
 		}
 	}
+	// collections of an object type with optional attributes: null / unknown members next to
+	// members that omit the optional attribute (decoded members carry plain object types, null
+	// and unknown members are built from the constraint: they must still agree)
+	{
+		optObj := tObj(at("a", tsStr), ato("b", tsNum))
+		own := []*TS{tList(optObj), tSet(optObj), tMap(optObj), tTuple(tList(optObj)), tList(tList(optObj)), tObj(at("k", tList(optObj))), tList(tObj(at("o", optObj))), tList(tObj(ato("x", tsDyn)))}
+		switch format {
+		case "json":
+			for _, d := range []string{`[null,{"a":"x"}]`, `[{"a":"x"},null]`, `[{"a":"x","b":1},null,{"a":"y"}]`, `{"k":null,"j":{"a":"x","b":1}}`, `{"k":{"a":"x"},"j":null}`, `[[null,{"a":"x"}]]`, `[{"a":"x"}]`, `[null]`,
+				`{"k":[null,{"a":"x"}]}`, `[{"o":null},{"o":{"a":"x"}}]`, `[null,{"a":null}]`, `[{"a":"x","b":null},{"a":"y"}]`} {
+				add([]byte(d), own, "optional-attrs")
+			}
+		case "msgpack":
+			obj := []byte{0x81, 0xa1, 'a', 0xa1, 'x'}
+			objFull := []byte{0x82, 0xa1, 'a', 0xa1, 'y', 0xa1, 'b', 0x01}
+			unk := []byte{0xd4, 0x00, 0x00}
+			cat := func(parts ...[]byte) []byte {
+				var out []byte
+				for _, p := range parts {
+					out = append(out, p...)
+				}
+				return out
+			}
+			for _, b := range [][]byte{
+				cat([]byte{0x92, 0xc0}, obj), cat([]byte{0x92}, obj, []byte{0xc0}), cat([]byte{0x93}, objFull, []byte{0xc0}, obj), cat([]byte{0x92}, unk, obj), cat([]byte{0x92}, obj, unk),
+				cat([]byte{0x82, 0xa1, 'k', 0xc0, 0xa1, 'j'}, objFull), cat([]byte{0x82, 0xa1, 'k'}, obj, []byte{0xa1, 'j'}, unk), cat([]byte{0x91, 0x92, 0xc0}, obj), cat([]byte{0x91}, obj), {0x91, 0xc0},
+				cat([]byte{0x81, 0xa1, 'k', 0x92, 0xc0}, obj), cat([]byte{0x92, 0x81, 0xa1, 'o', 0xc0, 0x81, 0xa1, 'o'}, obj),
+			} {
+				add(b, own, "optional-attrs")
+			}
+		}
+	}
 	// spliced documents: a collection whose members were encoded separately, each against the
 	// element constraint, so that members carry DIFFERENT concrete types where the constraint
 	// has a placeholder below the collection level (the decoder must unify them or fail)
@@ -436,7 +468,13 @@ func c17One(u *U, d *c17Decoder, b []byte, ty cty.Type, tyName string, origin st
 		u.Sample(map[string]string{"decoder": d.name, "input": fmt.Sprintf("%q", b), "target": tyName, "origin": origin, "outcome": "accepted"})
 	}
 	if d.typed {
-		if why := wf(v); why != "" {
+		// a requested type that itself carries optional-attribute annotations (a hand-built
+		// constraint) comes back in the types of null and empty results: the caller's doing
+		oldTol := wfTolerateOpt
+		wfTolerateOpt = tsOf(ty).HasOpt()
+		why := wf(v)
+		wfTolerateOpt = oldTol
+		if why != "" {
 			u.Violation(d.name+".malformed", tyName, fmt.Sprintf("%s(%s, %s) returned a malformed value %s: %s", d.name, in(), tyName, goStr(v), why))
 			return
 		}
